@@ -4,7 +4,7 @@ from common import run_driver_parallel, pmap, guarded, tier_scale, exc_in_lark, 
 
 STR_POOL = ['"if"', '"else"', '"ifx"', '"i"', '"a"', '"ab"', '"abc"', '"IF"i', '"if"i', '"="', '"=="', '"+"', '"++"', '";"', '"x"', '"0"', '"in"', '"int"', '"a1"', '"El"i']
 RE_POOL = ['/[a-z]+/', '/[a-z_]\\w*/', '/\\w+/', '/[a-c]+/', '/a+/', '/ab?/', '/\\d+/', '/\\d+\\.\\d+/', '/[0-9a-f]+/', '/=+/', '/./', '/[^ ;]+/', '/i[a-z]/',
-           '/(?i:if)/', '/[a-z]+/i', '/[A-Z]+/', '/[a-zA-Z]+/', '/if|else/', '/i|if/', '/[a-z]{2}/', '/[a-z]{1,3}/', '/\\+\\+?/', '/[ab]+c/', '/x*y/', '/(?i:[a-z])+/']
+           '/(?i:if)/', '/[a-z]+/i', '/[A-Z]+/', '/[a-zA-Z]+/', '/if|else/', '/i|if/', '/[a-z]{2}/', '/[a-z]{1,3}/', '/\\+\\+?/', '/[ab]+c/', '/x*y/', '/(?i:[a-z])+/', '/[a-z_]+/m', '/[a-z]+/s', '/[a-z] [a-z0-9]*/x', '/[a-f]+/im']
 ALPHA = list('ifelsxab=+;0 1IF') + ['  ', 'if', 'else', 'ab', '==', 'a1', 'int']
 
 
@@ -103,6 +103,9 @@ def _case(args):
         return [{'build_error': type(e).__name__ + ': ' + str(e)[:80]}]
     names = [t.name for t in pb.terminals]
     idx = {n: i for i, n in enumerate(names)}
+    import io
+    buf = io.BytesIO(); pb.save(buf); buf.seek(0)
+    pl = Lark.load(buf)
     for text in texts:
         data = text.encode('latin-1') if use_bytes else text
         tab = _tables(pb, text, use_bytes)
@@ -116,6 +119,15 @@ def _case(args):
         except UnexpectedCharacters as e:
             err = {'kind': 'chars', 'pos': e.pos_in_stream, 'allowed': sorted(idx[a] for a in e.allowed if a in idx)}
         rec['basic'] = {'toks': toks, 'err': err}
+        # ---- the same lexer after Lark.save / Lark.load (flags, priorities and the keyword carve-out are rebuilt from the serialised terminals)
+        ltoks, lerr = [], None
+        try:
+            with guarded(10):
+                for t in pl.lex(data):
+                    ltoks.append([idx[t.type], t.start_pos, t.end_pos - t.start_pos])
+        except UnexpectedCharacters as e:
+            lerr = {'kind': 'chars', 'pos': e.pos_in_stream, 'allowed': sorted(idx[a] for a in e.allowed if a in idx)}
+        rec['loaded'] = {'toks': ltoks, 'err': lerr}
         rec['basic_order'] = [idx[t.name] for t in pb.parser.lexer.scanner.allowed_types and pb.parser.lexer.terminals]
         # ---- parse under both lexers (property level)
         def tree_of(p):
@@ -162,7 +174,7 @@ def run(ctx, res):
     tier = ctx['tier']
     mult = 3 if ctx['deepen'] else 1
     jobs = []
-    for i in range(tier_scale(tier, 500, 9000) * mult):
+    for i in range(tier_scale(tier, 2000, 30000) * mult):
         g, texts = gen_case(rng, big=(i % 25 == 0))
         jobs.append((g, texts, rng.random() < 0.2))
     outs = pmap(_case, jobs, chunksize=4)
@@ -209,6 +221,12 @@ def run(ctx, res):
                            'model': {'toks': [[names[t], p, l] for t, p, l in mt_], 'err': me}})
             continue
         res.count('err_' + (me['kind'] if me else 'none'))
+        if mode == 'basic' and (rec['loaded']['toks'] != mt_ or rec['loaded']['err'] != me):
+            res.violation('basic lexer of the saved-and-loaded parser: token sequence/error differs from the precedence model',
+                          {'grammar': g, 'text': text, 'bytes': job[2], 'terminals': names,
+                           'code': {'toks': [[names[t], p, l] for t, p, l in rec['loaded']['toks']], 'err': rec['loaded']['err']},
+                           'model': {'toks': [[names[t], p, l] for t, p, l in mt_], 'err': me}})
+            continue
         if mode == 'basic':
             if rec['basic_order'] != m['order'] and False:
                 res.corr_break('scan order differs', {'grammar': g})
